@@ -100,6 +100,8 @@ enum RespSel {
     Err500,
     Unwritable,
     Conflicting,
+    /// 200 with a file body that is shorter than its declared length: the write fails after the head went out
+    ShortFile,
 }
 
 #[derive(Clone, Copy, Debug, PartialEq, Eq)]
@@ -130,8 +132,13 @@ const ALL_OPS: [OpK; 15] = [
     OpK::ShutdownWrite,
 ];
 
-fn make_response(sel: RespSel) -> Response {
+fn make_response(sel: RespSel, dir: &std::path::Path) -> Response {
     match sel {
+        RespSel::ShortFile => {
+            let p = dir.join("short-body.bin");
+            std::fs::write(&p, b"four").unwrap();
+            Response::new(200).with_body(servlin::ResponseBody::File(p, 10))
+        }
         RespSel::Interim102 => Response::new(102),
         RespSel::Ok200 => Response::text(200, "fine"),
         RespSel::NotFound404 => Response::text(404, "nope"),
@@ -172,6 +179,8 @@ enum Exp {
     OkRequest(&'static str),
     OkBody(Vec<u8>),
     Err(HttpError),
+    /// Some error (the documentation names no specific kind for an I/O failure).
+    AnyErr,
     /// The documentation leaves this cell open: any of these results, and then the
     /// model adopts the implementation's post-state (checked only for wire silence).
     Free,
@@ -183,6 +192,8 @@ enum Wire {
     Continue100,
     ContinueThen(Box<Wire>),
     Response(u16, Vec<u8>),
+    /// A non-empty proper prefix of a response with this status (the write failed part-way).
+    PartialResponse(u16),
 }
 
 struct Model {
@@ -333,6 +344,13 @@ impl Model {
                 match sel {
                     RespSel::Unwritable => (Exp::Err(HttpError::UnwritableResponse), Wire::Nothing),
                     RespSel::Conflicting => (Exp::Err(HttpError::DuplicateContentLengthHeader), Wire::Nothing),
+                    RespSel::ShortFile => {
+                        // bytes went out, then the body source failed: the write side is shut
+                        // down and nothing else may ever be written
+                        self.write = MWrite::Shutdown;
+                        self.fin_sent = true;
+                        (Exp::AnyErr, Wire::PartialResponse(200))
+                    }
                     _ => {
                         let (code, body) = resp_code_body(sel);
                         if code / 100 != 1 {
@@ -502,7 +520,7 @@ fn run_program(script_idx: usize, prog: &[OpK], interleaved: bool, gated: bool) 
                     run!(conn.read_body_to_file(&dir.path, max), |r: Result<RequestBody, HttpError>| render_body(r))
                 }
                 OpK::Write(sel) => {
-                    let resp = make_response(*sel);
+                    let resp = make_response(*sel, &dir.path);
                     run!(conn.write_response(&resp), |r: Result<(), HttpError>| match r {
                         Ok(()) => "OkUnit".to_string(),
                         Err(e) => format!("Err({e:?})"),
@@ -550,6 +568,10 @@ fn run_program(script_idx: usize, prog: &[OpK], interleaved: bool, gated: bool) 
             Exp::OkRequest(p) => format!("OkRequest({p})"),
             Exp::OkBody(b) => format!("OkBody({} bytes, fnv {:016x})", b.len(), sim_core::tape::fnv1a(b)),
             Exp::Err(e) => format!("Err({e:?})"),
+            Exp::AnyErr => {
+                gen::count("probe.write_failed_part_way");
+                if got.starts_with("Err(") { got.clone() } else { "Err(..)".to_string() }
+            }
             Exp::Free => unreachable!(),
         };
         if got != want {
@@ -660,6 +682,17 @@ fn wire_diff(exp: &Wire, delta: &[u8]) -> Option<String> {
                 _ => Some("expected a `100 Continue` first".to_string()),
             }
         }
+        Wire::PartialResponse(code) => {
+            let (rs, end) = parse_transcript(delta);
+            let start = format!("HTTP/1.1 {code} ");
+            if delta.is_empty() || !delta.starts_with(start.as_bytes()) {
+                return Some(format!("expected the beginning of a {code} response"));
+            }
+            if end == End::Clean {
+                return Some(format!("a response whose body source is too short was written as {} complete response(s)", rs.len()));
+            }
+            None
+        }
         Wire::Response(code, body) => {
             let (rs, end) = parse_transcript(delta);
             if end != End::Clean || rs.len() != 1 {
@@ -717,7 +750,13 @@ fn sampled(cfg: &RunCfg) -> Outcome {
     // bias towards sensible prefixes so deep states are reached
     let mut prog = Vec::new();
     for i in 0..depth {
-        let op = if i == 0 && gen::ratio(3, 4) { OpK::ReadRequest } else { ALL_OPS[gen::below(15) as usize] };
+        let op = if i == 0 && gen::ratio(3, 4) {
+            OpK::ReadRequest
+        } else if gen::ratio(1, 12) {
+            OpK::Write(RespSel::ShortFile)
+        } else {
+            ALL_OPS[gen::below(15) as usize]
+        };
         prog.push(op);
     }
     let interleaved = gen::ratio(2, 3);
@@ -742,12 +781,12 @@ pub fn spec() -> PropertySpec {
     PropertySpec {
         id: "C05",
         level: "exploration",
-        rule: "HttpConn methods called directly on a connection whose stream is the simulated TcpStream. Enumerated stage: EVERY program of depth <= 4 (quick) / <= 5 (thorough) over 15 operations {read_request, read_body_to_vec, read_body_to_file(max in {0, len-1, len, 2^40, u64::MAX}), write_http_continue, write_response(102 | 200 | 404 | 500 | non-writable kind | conflicting header), shutdown_write} x 13 client scripts {nothing+FIN, bodiless, small known body, known body + pipelined request, Expect+body, unknown-length, chunked, truncated body, garbage, gzip, body larger than the 8 KiB buffer, Expect+unknown length, three pipelined}, client pre-written + FIN. Sampled stage: programs of depth 1-7 with interleaved delivery (short reads, spurious Pending, bytes fed only when a call waits) and clients that withhold the body until they see 100 Continue. Oracle: explicit-state reference model (read state x write state x stream cursor) predicting result, states, is_ready(), write-side shutdown and the bytes on the wire after every call; misuse must leave the wire unchanged. distinct = (script, program, delivery mode).",
+        rule: "HttpConn methods called directly on a connection whose stream is the simulated TcpStream. Enumerated stage: EVERY program of depth <= 4 (quick) / <= 5 (thorough) over 15 operations {read_request, read_body_to_vec, read_body_to_file(max in {0, len-1, len, 2^40, u64::MAX}), write_http_continue, write_response(102 | 200 | 404 | 500 | non-writable kind | conflicting header), shutdown_write} x 13 client scripts {nothing+FIN, bodiless, small known body, known body + pipelined request, Expect+body, unknown-length, chunked, truncated body, garbage, gzip, body larger than the 8 KiB buffer, Expect+unknown length, three pipelined}, client pre-written + FIN. Sampled stage: programs of depth 1-7 with interleaved delivery (short reads, spurious Pending, bytes fed only when a call waits) and clients that withhold the body until they see 100 Continue; the sampled programs also contain write_response of a file body shorter than its declared length (fails after the head went out: some error, a proper prefix on the wire, write side shut down, everything afterwards refused). Oracle: explicit-state reference model (read state x write state x stream cursor) predicting result, states, is_ready(), write-side shutdown and the bytes on the wire after every call; misuse must leave the wire unchanged. distinct = (script, program, delivery mode).",
         scenarios: vec![
             Scenario { name: "c05.enumerated", property: "C05", func: enumerated, runs_quick: n3, runs_thorough: n4, doc: "all programs up to the depth bound" },
             Scenario { name: "c05.sampled", property: "C05", func: sampled, runs_quick: 1_000_000, runs_thorough: 20_000_000, doc: "deeper programs, interleaved delivery" },
         ],
-        required_probes: vec!["probe.interleaved_delivery", "probe.client_waits_for_100", "probe.free_cell"],
+        required_probes: vec!["probe.interleaved_delivery", "probe.client_waits_for_100", "probe.free_cell", "probe.write_failed_part_way"],
         components: components_server(),
         assumptions: vec![
             "cells the documentation leaves open (reading an Expect body after the final response was sent) are implementation-free: only wire silence on error is required",
